@@ -11,7 +11,7 @@ let show_kind = function
   | KTag (k, attrs, sc) -> "G:" ^ f k ^ ":" ^ String.concat "," (List.map (fun (a, v) -> f a ^ "=" ^ f v) attrs) ^ ":" ^ b sc
   | KTagEnd k -> "Z:" ^ f k
   | KCode (t, m) -> "P:" ^ f t ^ ":" ^ b m
-  | KDropNL -> "D" | KSkip -> "S" | KCoding -> "X"
+  | KDropNL -> "D" | KCoding -> "X"
 
 let show_err = function
   | EUnterminated -> "unterminated" | EInvalidControl -> "invalidcontrol" | ENoStartKw -> "nostart"
@@ -27,7 +27,7 @@ let handle line =
     String.concat ";" (List.map (fun e ->
         Printf.sprintf "%s@%d,%d,%d" (show_kind e.ev_kind) (int_of_n e.ev_line) (int_of_n e.ev_pos) (List.length e.ev_src)) es)
     ^ "|" ^ (match o with LexOk -> "ok" | LexErr (e, l, p) -> Printf.sprintf "%s %d %d" (show_err e) (int_of_n l) (int_of_n p))
-    ^ "|" ^ b (tiles src es) ^ b (has_skip es) ^ b (List.for_all emit_ok es)
+    ^ "|" ^ b (tiles src es) ^ b (List.for_all emit_ok es)
   | _ -> "!badrequest"
 
 let () = iter_lines handle
